@@ -211,6 +211,9 @@ def decoded_differently(inp):
     """a child whose locale / UTF-8 mode differs decodes non-ASCII bytes of its command line differently: it is then given
     ANOTHER command line than the one written down here, and only status and tracebacks can be judged"""
     env = inp.get("env") or {}
+    if inp.get("subprocess") and any(0xDC80 <= ord(c) <= 0xDCFF for l in (inp.get("stdin") or []) for c in l):
+        return True         # undecodable bytes on a real standard input: how much of the input survives the decoding error is the
+                            # interpreter's business (a pipe loses the buffered rest); status and tracebacks are judged
     return bool(inp.get("subprocess")) and any(k in env for k in ("LC_ALL", "LC_CTYPE", "LANG", "PYTHONUTF8")) and \
         any(ord(c) > 127 for a in inp["argv"] for c in a)
 
